@@ -231,6 +231,7 @@ def parse_model(line):
 def parse_spec(line):
     kv = dict(w.split("=", 1) for w in line.split(" ") if "=" in w)
     return {"reach": [int(x) for x in kv["reach"].split(",")] if kv["reach"] != "-" else [],
+            "ident": [int(x) for x in kv["ident"].split(",")] if kv["ident"] != "-" else [],
             "bad": [] if kv["bad"] == "-" else kv["bad"].split(";")}
 
 
@@ -272,6 +273,10 @@ def judge(case, impl, model, spec):
                              f"{spec['reach']} (missing {missing}, extra {extra})", True))
         if spec["bad"]:
             out.append(("reported-stack-invalid", f"reported stacks that do not lead there: {spec['bad']}", True))
+        ident = [s for s, _ in impl["rows"][len(impl["result"]):]]
+        if ident != spec["ident"]:
+            out.append(("identified-set", f"sessions reported as identified-but-not-entered {ident}, by the NRC rule "
+                                          f"(NRC other than 0x12 / 0x7e from a session entered within depth-1) {spec['ident']}", True))
     elif impl["exit"] == "1":
         if in_class(case):
             out.append(("exit-1-in-class", "scan gave up (exit 1) although every session can re-enter the default session", True))
@@ -517,7 +522,7 @@ def run(ctx):
                                     "over {1,2,3} with skip=[3], reset=1, depth 2; all 65536 positive-edge subsets over "
                                     "{1,2,3,0x7f}, depth 4")
     # 2. seeded
-    for _ in range(ctx.pick(170, 6000)):
+    for _ in range(ctx.pick(450, 6000)):
         c, label = rand_case(rng, ctx.widened)
         add(c, "random:" + label)
 
